@@ -184,7 +184,7 @@ impl CaseKind for Case18 {
 pub fn cfg_for(t: Tier, exact: bool) -> GenCfg {
     use Kind::*;
     let mut cfg = GenCfg::programs(exact);
-    cfg.kinds = vec![(Binary, 24), (Backward, 14), (Unary, 10), (DropH, 12), (Probe, 10), (Leaf, 7), (SumReshape, 6), (Matmul, 6), (CloneH, 5), (Rebind, 4), (Custom, 4), (ClearGrad, 4), (ReadGrad, 4), (Conv, 3), (Update, 3), (IfGt, 2), (Flag, 2), (Retrack, 4)];
+    cfg.kinds = vec![(Binary, 24), (Backward, 14), (Unary, 10), (DropH, 12), (Probe, 10), (Leaf, 7), (SumReshape, 6), (Matmul, 6), (CloneH, 5), (Rebind, 4), (Custom, 4), (ClearGrad, 4), (ReadGrad, 4), (Conv, 3), (Update, 3), (IfGt, 2), (Flag, 2), (Retrack, 4), (Refused, 2)];
     cfg.max_steps = t.pick(26, 100);
     cfg.max_elems = t.pick(32, 100);
     cfg.final_release_probe = true;
